@@ -32,9 +32,10 @@ for d in sorted(glob.glob(os.path.join(VERIF, 'seeded', 'C*-*m*'))):
                 'full test-suite (pytest -q -x, PYTHONPATH=<worktree>/Lib) with the patch applied; worktree removed',
             demo_exit_clean=vf.get('demo_clean_rc'), demo_exit_mutated=vf.get('demo_mutated_rc'),
             suite_with_patch='passed (no failures)' if vf.get('tests_passed_line') and not vf.get('tests_failed_line') else 'see tests_mutated.log'),
-        round=2 if '-r2' in sid else 1,
+        round=3 if '-r3' in sid else 2 if '-r2' in sid else 1,
         checks_run=det,
         baseline_before_round2_extensions=(dict(commit='c14225a', runs=base, detected=any(b['exit'] == 1 for b in base)) if base else None),
+        baseline_before_round3_extensions=(json.load(open(os.path.join(d, 'baseline3.json'))) if os.path.exists(os.path.join(d, 'baseline3.json')) else None),
         detected=bool(caught),
         detected_by=sorted({'%s:%s' % (x['check'], k) for x in caught for k in x['violated_kernels']}))
     json.dump(meta, open(os.path.join(d, 'meta.json'), 'w'), indent=1)
